@@ -418,6 +418,9 @@ package types
 //@ func (Message).TagAt
 //@   safety[C02]
 //@   requires m.table.data <= len(m.bytes)
+//@   ensures[C01,C16] !m.table.big && 0 <= i && i < len(m.table.table) / 3 ==> result1 && result0 == smallTag(mem(m.table.table), lo(m.table.table), i)
+//@   ensures[C01,C16] m.table.big && 0 <= i && i < len(m.table.table) / 6 ==> result1 && result0 == bigTag(mem(m.table.table), lo(m.table.table), i)
+//@   ensures[C01,C16] i < 0 || i >= ite(m.table.big, len(m.table.table) / 6, len(m.table.table) / 3) ==> !result1 && result0 == 0
 //@   noalloc[C17]
 
 //@ func (Message).Bool
